@@ -7,6 +7,13 @@ use crate::linalg::{
 /// Computes the Cholesky decomposition of the matrix `a` using the Cholesky-Banachiewicz
 /// algorithm.
 pub fn cholesky(a: &[f64]) -> Vec<f64> {
+    try_cholesky(a).expect("matrix not positive definite")
+}
+
+/// Computes the Cholesky decomposition of the symmetric matrix `a`, or returns `None` if `a` turns
+/// out not to be positive definite (a symmetric matrix with a positive diagonal can still be
+/// indefinite).
+pub fn try_cholesky(a: &[f64]) -> Option<Vec<f64>> {
     assert!(is_symmetric(a));
     let n = is_square(a).unwrap();
 
@@ -19,7 +26,9 @@ pub fn cholesky(a: &[f64]) -> Vec<f64> {
             if i == j {
                 let d = a[i * n + i] - s;
                 // a non-positive (or NaN) pivot means the matrix is not positive definite
-                assert!(d > 0., "matrix not positive definite");
+                if !(d > 0.) {
+                    return None;
+                }
                 l[i * n + j] = d.sqrt();
             } else {
                 l[i * n + j] = (a[i * n + j] - s) / l[j * n + j];
@@ -27,7 +36,7 @@ pub fn cholesky(a: &[f64]) -> Vec<f64> {
         }
     }
 
-    l
+    Some(l)
 }
 
 /// Solves the system Lx=b, where L is a lower triangular matrix (e.g., a Cholesky decomposed
